@@ -6,7 +6,10 @@ import Driver.Util
 * `bs <cfg> <ops…>`   ops `t.k` `r.k` `a.n` on one bucket set (constructors = the `ip` field of cfg).
 * `sess <cfg> <ops…>` SMTP sessions: `o.sid.ip.def` `m.sid.raw.clean.so` `c.sid.so` `d.sid.x` `z.sid` `q.sid[.drop]`;
   answer: per op `-@<snapshot>`.
-* `rem <cfg> <ops…>`  remote deliveries: `s.id.ip.dom` `a.id.dd.co.mo[.rcptrej]` `x.id.how`.
+* `rem <cfg> <ops…>`  remote deliveries: `p.n` (pool reuse limit of the target, no Group call) `s.id.ip.dom[.so|.rt]`
+  (so: security override, rt: REQUIRETLS — no effect on the Group calls) `a.id.dd.co.mo[.note]` (note: what the next hop does — `rcptrej` RCPT refused; `rcpt421 rcpt421c rcptdrop
+  rcpttmo` RCPT fails with the connection lost; `mail421 mail421c maildrop mailtmo` with mo = 0, `conndrop
+  conntmo` with co = 0: the kind of failure) `x.id.how[.end]` (how = abort: Close; otherwise Body, then Close).
 cfg = `<all>/<ip>/<source>/<destination>/<reap>/<maxB>`, each scope `-` or a comma list of `s<N>` / `r<N>`. -/
 namespace Driver.C11
 open MaddyVerif.Limits Driver
@@ -214,37 +217,53 @@ def runSess (c : Cfg) : St → List (Nat × Sess) → List String → List Strin
 
 /-! ### rem -/
 
+/-- The note of an `a` op → what the next hop did with RCPT (`none`: unknown note). -/
+def parseNote : List String → Option RcptRes
+  | [] => some .accepted
+  | [n] =>
+    if n == "rcptrej" then some .refused
+    else if ["rcpt421", "rcpt421c", "rcptdrop", "rcpttmo"].contains n then some .lost
+    else if ["mail421", "mail421c", "maildrop", "mailtmo", "conndrop", "conntmo"].contains n then some .accepted
+    else none
+  | _ => none
+
 def runRem (c : Cfg) : St → List (Nat × Rem) → List String → List String → Option (List String)
   | _, _, [], acc => some acc.reverse
   | s, m, op :: rest, acc =>
     let f := op.splitOn "."
     let obs := fun (s' : St) => s!"-@{snapshot c s'.g}"
     match f with
-    | ["s", id, ip, dom] =>
-      match id.toNat?, ip.toNat?, dom.toNat? with
-      | some id, some ip, some dom =>
+    | "s" :: id :: ip :: dom :: flag =>
+      match id.toNat?, ip.toNat?, dom.toNat?, flag == [] || flag == ["so"] || flag == ["rt"] with
+      | some id, some ip, some dom, true =>
         let r0 : Rem := { ip := ip, dom := dom }
         let r := runCmd c s (fun ok => r0.op ok .start)
         if r.2.2 then some ("panic" :: acc).reverse
         else runRem c r.2.1 (if r.1.started then store m id r.1 else m) rest (obs r.2.1 :: acc)
-      | _, _, _ => none
-    | "a" :: id :: dd :: co :: mo :: _ =>
-      match id.toNat?, dd.toNat? with
-      | some id, some dd =>
+      | _, _, _, _ => none
+    | ["p", n] =>
+      match n.toNat? with
+      | some _ => runRem c s m rest (obs s :: acc)
+      | none => none
+    | "a" :: id :: dd :: co :: mo :: note =>
+      match id.toNat?, dd.toNat?, parseNote note with
+      | some id, some dd, some rc =>
         match lookup m id with
         | none => none
         | some rr =>
-          let r := runCmd c s (fun ok => rr.op ok (.addRcpt dd (co == "1") (mo == "1")))
+          let r := runCmd c s (fun ok => rr.op ok (.addRcpt dd (co == "1") (mo == "1") rc))
           if r.2.2 then some ("panic" :: acc).reverse
           else runRem c r.2.1 (store m id r.1) rest (obs r.2.1 :: acc)
-      | _, _ => none
-    | "x" :: id :: _ =>
+      | _, _, _ => none
+    | "x" :: id :: how =>
       match id.toNat? with
       | some id =>
         match lookup m id with
         | none => none
         | some rr =>
-          let r := runCmd c s (fun ok => rr.op ok .close)
+          -- Body (when the harness calls it) makes no Group call and keeps the state; then Close
+          let rb := if how.head? == some "abort" || how.isEmpty then rr else (rr.op true .body).1
+          let r := runCmd c s (fun ok => rb.op ok .close)
           if r.2.2 then some ("panic" :: acc).reverse
           else runRem c r.2.1 (m.filter (fun p => p.1 != id)) rest (obs r.2.1 :: acc)
       | none => none
